@@ -118,6 +118,9 @@ def n1_memsafe(exclude):
     if not bad:
         return _result('inconclusive', 'no buffer loads found (vacuous)', t0, x)
     r, m, dt = I.check([z3.Or(bad)])
+    if r == 'sat':
+        r_s, m_s, _ = I.check([z3.Or(bad), z3.ULE(e.size, 4 * BOUND + 8)])
+        m = m_s if r_s == 'sat' else m
     if r == 'unsat':
         # reachability witness: some load is reachable at all
         r2, _, _ = I.check([z3.Or([pc for pc, _, _ in e.loads])])
@@ -168,6 +171,9 @@ def n23_contract(exclude):
     fn, e, x, pre = _exec(P_valid, BOUND)
     bad = [z3.And(pc, z3.Not(contract(e, r))) for pc, r in x.results]
     r, m, dt = I.check([z3.Or(bad)])
+    if r == 'sat':
+        r_s, m_s, _ = I.check([z3.Or(bad), z3.ULE(e.size, 4 * BOUND + 8)])
+        m = m_s if r_s == 'sat' else m
     if r == 'unsat':
         return _result('confirmed', 'non-final: 0 or (min<=r<=max, 4|r, r<=size); final: size=0 -> 0, size>2max -> main cut, else r>=1', t0, x)
     if r == 'sat':
@@ -241,7 +247,7 @@ def n4_locality(exclude):
     e2.uf = e1.uf
 
     def main_regime(e):
-        return z3.Or(z3.And(z3.Not(e.final), z3.UGE(e.size, aligned(e.max))), z3.And(e.final, z3.UGE(e.size, 2 * e.max)))
+        return z3.Or(z3.And(z3.Not(e.final), z3.UGE(e.size, aligned(e.max))), z3.And(e.final, z3.UGT(e.size, 2 * e.max)))
     x1 = I.Exec(fn, e1, z3.And(P_valid(e1, B), main_regime(e1)), unroll=B // 4 + 2).run()
     x2 = I.Exec(fn, e2, z3.And(P_valid(e2, B), main_regime(e2)), unroll=B // 4 + 2).run()
     i = z3.BitVec('i', 64)
@@ -253,6 +259,10 @@ def n4_locality(exclude):
     f1 = z3.Or([z3.And(pc, r1 == r) for pc, r in x1.results])
     f2 = z3.Or([z3.And(pc, r2 == r) for pc, r in x2.results])
     r, m, dt = I.check([agree_qf, f1, f2, r1 != r2], timeout_ms=300000)
+    if r == 'sat':   # prefer a model small enough to replay
+        r_s, m_s, _ = I.check([agree_qf, f1, f2, r1 != r2, z3.ULE(e1.size, 4 * B + 8), z3.ULE(e2.size, 4 * B + 8)], timeout_ms=120000)
+        if r_s == 'sat':
+            m = m_s
     x1.results += x2.results
     if r == 'unsat':
         return _result('confirmed', 'cut in the main regime is a function of (min,max,key, bytes[0,aligned(max)))', t0, x1)
@@ -268,6 +278,8 @@ def replay_locality(v1, v2):
     c = I.NativeChunker(lib, v1['min'], v1['max'], key)
     rng = random.Random(3)
     A = (v1['max'] + 3) & -4
+    if max(v1['size'], v2['size']) > 1 << 20:
+        return {'ok': None, 'note': 'model sizes too large to replay'}
     for _ in range(400):
         pre = rng.randbytes(A)
         d1 = (pre + rng.randbytes(max(v1['size'] - A, 0)))[:max(v1['size'], 0)]
